@@ -22,7 +22,9 @@ use crate::{
     security::{HardwareFingerprint, Uid},
 };
 
-use super::{Answer, Error, IdentityAnswer, Query, QueryProtocol};
+use super::{
+    identity_challenge_message, Answer, Error, IdentityAnswer, Query, QueryProtocol,
+};
 
 ///
 /// handle all inbound queries
@@ -86,7 +88,10 @@ impl InboundQueryService {
     ) -> Result<(), crate::Error> {
         match msg.query {
             Query::ProveIdentity(challenge) => {
-                let res = peer.db.sign(challenge).await;
+                let res = peer
+                    .db
+                    .sign(identity_challenge_message(&challenge).to_vec())
+                    .await;
                 let self_peer = peer
                     .db
                     .get_peer_node(peer.verifying_key.clone())
